@@ -19,6 +19,7 @@ import (
 	"os"
 	"os/exec"
 	"path/filepath"
+	"regexp"
 	"sort"
 	"strconv"
 	"strings"
@@ -98,6 +99,8 @@ type summary struct {
 	Violations []violationRec `json:"violations"`
 	Samples    []sample       `json:"samples"`
 	Nondeterm  []int          `json:"nondeterministic"`
+	NondetInfo []string       `json:"nondeterministic_info"`
+	SelectTies int            `json:"select_ties"`
 	Rechecked  int            `json:"rechecked"`
 	WallS      float64        `json:"wall_s"`
 	Meta       *meta          `json:"meta"`
@@ -277,6 +280,8 @@ type agg struct {
 	viol      []violationRec
 	samples   []sample
 	nondet    []int
+	nondetInf []string
+	selTies   int
 	rechecked int
 	crashes   []crashRec
 	meta      *meta
@@ -375,6 +380,8 @@ func (a *agg) merge(s *summary, genStart, genStride int, free bool) {
 		a.samples = append(a.samples, s.Samples...)
 	}
 	a.nondet = append(a.nondet, s.Nondeterm...)
+	a.nondetInf = append(a.nondetInf, s.NondetInfo...)
+	a.selTies += s.SelectTies
 	a.rechecked += s.Rechecked
 	if s.Meta != nil {
 		a.meta = s.Meta
@@ -812,16 +819,15 @@ func replay(path string) int {
 	bin := build(free)
 	pf := filepath.Join(work, "replay-plan.json")
 	writeJSON(pf, rf.Plan)
-	attempts := 1
+	// controlled mode: one exact re-execution; when Go's select coin (pool.ConnPool.Run with both cases ready) takes part
+	// in the recorded run, up to four
+	attempts := 4
 	if free {
 		attempts = 20
 	}
+	seen := map[string]bool{}
 	for i := 0; i < attempts; i++ {
-		rep := 2
-		if free {
-			rep = 1
-		}
-		r, stderr, err := runPlan(bin, pf, rep, free, 300*time.Second)
+		r, stderr, err := runPlan(bin, pf, 1, free, 300*time.Second)
 		if err != nil {
 			cc := crashClass(stderr)
 			fmt.Println(stderr)
@@ -835,8 +841,9 @@ func replay(path string) int {
 			fmt.Printf("crashed with class %q, recorded class %q\nVIOLATION property=%s replay=%s\n", cc, rf.Class, prop, path)
 			return 1
 		}
-		if strings.HasPrefix(r.Digest, "NONDETERMINISTIC") {
-			fatal2("replay diverged between two executions: %s", r.Digest)
+		seen[r.Digest] = true
+		if !free && len(seen) > 1 {
+			fmt.Printf("note: executions of this plan differ (digests %v): an unseedable select among ready cases takes part\n", len(seen))
 		}
 		if hasClass(r, rf.Class) {
 			for _, v := range r.Violations {
@@ -900,17 +907,86 @@ func selftest(n int) int {
 		}
 	}
 	wg.Wait()
+	ties := 0
 	for i := 0; i < n; i++ {
 		if len(digests[i]) != 1 {
+			if why := explainDivergence(bin, i); why == "" {
+				ties++
+				fmt.Fprintf(os.Stderr, "selftest: plan %d has %d different digests; the executions first differ in Go's select among two ready cases of pool.ConnPool.Run (unseedable): tolerated\n", i, len(digests[i]))
+				continue
+			} else {
+				fmt.Fprintf(os.Stderr, "selftest: plan %d has %d different digests: %v: %s\n", i, len(digests[i]), digests[i], why)
+			}
 			bad++
-			fmt.Fprintf(os.Stderr, "selftest: plan %d has %d different digests: %v\n", i, len(digests[i]), digests[i])
 		}
 	}
-	fmt.Printf("selftest %s: %d plans x 9 processes (GOMAXPROCS 1/4/16 x 3), %d divergent\n", prop, n, bad)
+	fmt.Printf("selftest %s: %d plans x 9 processes (GOMAXPROCS 1/4/16 x 3), %d divergent, %d select ties\n", prop, n, bad, ties)
 	if bad > 0 {
 		return 2
 	}
 	return 0
+}
+
+var (
+	tieRefreshRe = regexp.MustCompile(`grant [RW] liteapi/pool\.\(\*ConnPool\)\.Run @liteapi/pool\.\(\*ConnPool\)\.updateBest`)
+	tieNotifyRe  = regexp.MustCompile(`grant [RW] liteapi/pool\.\(\*ConnPool\)\.Run @liteapi/pool\.\(\*ConnPool\)\.notifySubscribers`)
+)
+
+// explainDivergence re-executes plan i with complete event logs until two executions differ and returns "" when
+// every pair first differs in the select of pool.ConnPool.Run (see DESIGN 2.3), else a description.
+func explainDivergence(bin string, i int) string {
+	logs := map[string][]string{}
+	var order []string
+	for k := 0; k < 12 && len(logs) < 3; k++ {
+		out := filepath.Join(work, fmt.Sprintf("sx-%d-%d.json", i, k))
+		dump := out + ".log"
+		args := []string{"-test.run", "^TestWorker$", "-verif.mode=gen", "-verif.exec", "-verif.prop=" + prop, "-verif.tier=" + tier, "-verif.seed=" + strconv.FormatUint(seed, 10), "-verif.start=" + strconv.Itoa(i), "-verif.out=" + out}
+		cmd := exec.Command(bin, args...)
+		cmd.Env = append(workerEnv(false), "GOMAXPROCS="+[]string{"1", "4", "16"}[k%3], "VERIF_DUMPLOG="+dump)
+		cmd.Dir = work
+		cmd.CombinedOutput()
+		b, err := os.ReadFile(out)
+		lb, _ := os.ReadFile(dump)
+		os.Remove(out)
+		os.Remove(dump)
+		if err != nil {
+			return "a re-execution crashed"
+		}
+		var r result
+		if unmarshal(b, &r) != nil {
+			return "a re-execution gave no result"
+		}
+		if _, ok := logs[r.Digest]; !ok {
+			logs[r.Digest] = strings.Split(string(lb), "\n")
+			order = append(order, r.Digest)
+		}
+	}
+	if len(order) < 2 {
+		return "the divergence did not show again in 12 re-executions"
+	}
+	a := logs[order[0]]
+	for _, d := range order[1:] {
+		b := logs[d]
+		for j := 0; j < len(a) || j < len(b); j++ {
+			var x, y string
+			if j < len(a) {
+				x = a[j]
+			}
+			if j < len(b) {
+				y = b[j]
+			}
+			if x == y {
+				continue
+			}
+			rx, nx := tieRefreshRe.MatchString(x), tieNotifyRe.MatchString(x)
+			ry, ny := tieRefreshRe.MatchString(y), tieNotifyRe.MatchString(y)
+			if rx == ry && nx == ny {
+				return fmt.Sprintf("first difference at line %d: %q vs %q", j, x, y)
+			}
+			break
+		}
+	}
+	return ""
 }
 
 func check() int {
@@ -962,10 +1038,15 @@ func check() int {
 	}
 	// A run whose digest differs on re-execution is not believed (it is discarded from every count), but it
 	// cannot hide a violation: violations are only reported after they reproduced in a fresh process.
-	// Go's select among several ready cases is the one runtime choice the simulator cannot seed; plans avoid
-	// such ties, and more than a handful of divergent runs means the harness lost control: exit 2.
+	// Go's select among several ready cases is the one runtime choice the simulator cannot seed. A re-execution
+	// whose event log first differs in what pool.ConnPool.Run picks (refresh or notify, both ready) is that coin and
+	// is counted separately (select_ties); any other divergence is unexplained, and more than a handful of those
+	// means the harness lost control: exit 2.
 	if n := len(a.nondet); n > 3 && n*100 > 3*a.rechecked {
-		fatal2("%d of %d re-executed runs diverged (indices %v): results are not believed", n, a.rechecked, a.nondet)
+		fatal2("%d of %d re-executed runs diverged for an unexplained reason (indices %v; %v): results are not believed", n, a.rechecked, a.nondet, a.nondetInf)
+	}
+	if len(a.nondet) > 0 {
+		fmt.Fprintf(os.Stderr, "note: %d of %d re-executed runs diverged for an unexplained reason: %v\n", len(a.nondet), a.rechecked, a.nondetInf)
 	}
 
 	known := loadKnown()
@@ -1331,6 +1412,7 @@ func writeEvidence(a, fa *agg, nViol, nClasses int) {
 		"probes_unreached":                           zero,
 		"determinism_rechecks":                       a.rechecked,
 		"determinism_mismatches":                     len(a.nondet),
+		"determinism_select_ties_go_runtime_coin":    a.selTies,
 		"worker_processes":                           a.procs + fa.procs,
 		"workers":                                    nwork,
 		"components_real":                            m.Real,
